@@ -304,7 +304,7 @@ def cases(draw):
 
 
 def run_shard(ctx):
-    hyp_search(ctx, cases(), lambda c: check_case(c, ctx.stats), ctx.scale(4, 80), shrink_calls=25)
+    hyp_search(ctx, cases(), lambda c: check_case(c, ctx.stats), ctx.scale(4, 20), shrink_calls=25)
 
 
 def replay(case):
